@@ -582,7 +582,7 @@ Proof.
     rewrite tab_nth by exact Hw. unfold singleton. rewrite tab_nth by exact Hw. apply Nat.eqb_refl.
 Qed.
 
-(** ** The defect *)
+(** ** The repaired defect: refutation of the pre-repair rule for the local flag *)
 Definition bs (n : nat) (l : list nat) : list bool := tab n (fun i => memb i l).
 Definition wit_g : graph := [[1];[2];[];[0];[0];[0];[0];[0];[0];[3];[];[];[];[]].
 Definition wit_gt : graph := [[3;4;5;6;7;8];[0];[1];[9];[];[];[];[];[];[];[];[];[];[]].
@@ -590,12 +590,22 @@ Definition wit_c0 : list (list bool) :=
   [bs 14 [0]; bs 14 []; bs 14 [2]; bs 14 [3;0]; bs 14 [4;0]; bs 14 [5;0]; bs 14 [6;0]; bs 14 [7;0]; bs 14 [8;0];
    bs 14 [9;3;0]; bs 14 [10]; bs 14 [11]; bs 14 [12]; bs 14 [13]].
 
+(** about [hb_run_prefix], the model of the code BEFORE the repair *)
 Theorem nf_refuted : S_nf_refuted.
 Proof.
   exists wit_g, wit_gt, wit_c0.
   split; [vm_compute; reflexivity|]. split; [reflexivity|].
   cbv zeta. split; [vm_compute; reflexivity|]. split; [vm_compute; reflexivity|].
   vm_compute. discriminate.
+Qed.
+
+(** the same witness under both rules *)
+Theorem nf_witness_repaired : S_nf_witness_repaired.
+Proof.
+  exists wit_g, wit_gt, wit_c0.
+  split; [vm_compute; reflexivity|]. split; [reflexivity|]. split.
+  - cbv zeta. vm_compute. discriminate.
+  - cbv zeta. split; [vm_compute; reflexivity|]. split; vm_compute; reflexivity.
 Qed.
 
 (** ** The concrete bookkeeping of [iterate] refines the abstract step *)
@@ -636,6 +646,38 @@ Proof.
   unfold succs in H. rewrite nth_overflow in H by exact Hu. destruct H.
 Qed.
 
+(** ** Sums *)
+Lemma sumZ_app l1 l2 : sumZ (l1 ++ l2) = (sumZ l1 + sumZ l2)%Z.
+Proof. induction l1 as [|x l1 IH]; [reflexivity|]. cbn [app]. rewrite !sumZ_cons, IH. lia. Qed.
+
+Lemma sumZ_filter0 {A} (f : A -> Z) (p : A -> bool) l :
+  (forall x, In x l -> p x = false -> f x = 0%Z) ->
+  sumZ (map f (filter p l)) = sumZ (map f l).
+Proof.
+  induction l as [|x l IH]; intros H; [reflexivity|].
+  cbn [filter map]. assert (IH' := IH (fun y Hy => H y (or_intror Hy))).
+  destruct (p x) eqn:E.
+  - cbn [map]. rewrite !sumZ_cons, IH'. reflexivity.
+  - rewrite sumZ_cons, IH'. rewrite (H x (or_introl eq_refl) E). lia.
+Qed.
+
+Lemma sumZ_sub {A} (f h : A -> Z) l :
+  sumZ (map (fun x => f x - h x)%Z l) = (sumZ (map f l) - sumZ (map h l))%Z.
+Proof. induction l as [|x l IH]; [reflexivity|]. cbn [map]. rewrite !sumZ_cons, IH. lia. Qed.
+
+Lemma sumZ_ones {A} (f : A -> Z) l :
+  (forall x, In x l -> f x = 1%Z) -> sumZ (map f l) = Z.of_nat (length l).
+Proof.
+  induction l as [|x l IH]; intros H; [reflexivity|].
+  cbn [map length]. rewrite sumZ_cons, (H x (or_introl eq_refl)), (IH (fun y Hy => H y (or_intror Hy))). lia.
+Qed.
+
+Lemma filter_all {A} (p : A -> bool) l : (forall x, In x l -> p x = true) -> filter p l = l.
+Proof.
+  induction l as [|x l IH]; intros H; [reflexivity|].
+  cbn [filter]. rewrite (H x (or_introl eq_refl)), (IH (fun y Hy => H y (or_intror Hy))). reflexivity.
+Qed.
+
 Section Concrete.
   Variable L : Type.
   Variable join : L -> L -> L.
@@ -649,17 +691,20 @@ Section Concrete.
 
   Notation sstep := (sync_step L join dflt).
 
-  Definition k_check (s : cstate L) := if c_prelocal L s then sort_dedup (c_buf L s) else c_check L s.
+  (** the local flag of the repaired code: [pre_local && systolic] *)
+  Definition k_local (s : cstate L) (sys : bool) := c_prelocal L s && sys.
+  Definition k_check (s : cstate L) (sys : bool) :=
+    if k_local s sys then sort_dedup (c_buf L s) else c_check L s.
   Definition k_mbc0 (s : cstate L) (sys : bool) :=
-    if negb (c_prelocal L s) && sys && negb (c_sys L s)
+    if negb (k_local s sys) && sys && negb (c_sys L s)
     then repeat true (length (a_curr L (c_arr L s))) else c_mbc L s.
-  Definition k_scan (s : cstate L) := fun v => if c_prelocal L s then memb v (k_check s) else true.
-  Definition k_chk (s : cstate L) (sys : bool) := fun v => negb sys || c_prelocal L s || getb (k_mbc0 s sys) v.
+  Definition k_scan (s : cstate L) (sys : bool) := fun v => if k_local s sys then memb v (k_check s sys) else true.
+  Definition k_chk (s : cstate L) (sys : bool) := fun v => negb sys || k_local s sys || getb (k_mbc0 s sys) v.
   Definition k_nmod0 (s : cstate L) :=
     let n := length (a_curr L (c_arr L s)) in
     if c_local L s then tab n (fun v => getb (c_nmod L s) v && negb (memb v (c_check L s))) else repeat false n.
   Definition k_modified (s : cstate L) (sys : bool) :=
-    filter (fun v => node_mod L join eqb dflt g (c_arr L s) (k_scan s) (k_chk s sys) v)
+    filter (fun v => node_mod L join eqb dflt g (c_arr L s) (k_scan s sys) (k_chk s sys) v)
            (seq 0 (length (a_curr L (c_arr L s)))).
 
   Definition cinv (s : cstate L) (c : list L) : Prop :=
@@ -672,19 +717,26 @@ Section Concrete.
 
   Lemma cstep_fields s sys pl :
     let s' := cstep L join eqb dflt size ext g gt s sys pl in
-    let a' := astep L join eqb dflt ext g (c_arr L s) (k_scan s) (k_chk s sys) in
+    let a' := astep L join eqb dflt ext g (c_arr L s) (k_scan s sys) (k_chk s sys) in
     let n := length (a_curr L (c_arr L s)) in
     c_arr L s' = mkA L (a_curr L a') (a_next L a')
                      (tab n (fun v => getb (k_nmod0 s) v
-                                      || node_mod L join eqb dflt g (c_arr L s) (k_scan s) (k_chk s sys) v)) /\
+                                      || node_mod L join eqb dflt g (c_arr L s) (k_scan s sys) (k_chk s sys) v)) /\
     c_nmod L s' = a_mod L (c_arr L s) /\
-    c_sys L s' = sys /\ c_local L s' = c_prelocal L s /\ c_prelocal L s' = pl /\
-    c_check L s' = k_check s /\
+    c_sys L s' = sys /\ c_local L s' = k_local s sys /\ c_prelocal L s' = pl /\
+    c_check L s' = k_check s sys /\
     c_buf L s' = (if pl then flat_map (fun v => v :: succs gt v) (k_modified s sys) else []) /\
     c_iter L s' = S (c_iter L s) /\
     (sys = true -> pl = false ->
-       c_mbc L s' = tab n (fun u => getb (if negb (c_prelocal L s) && sys then repeat false n else c_nmbc L s) u
-                                    || existsb (fun v => memb u (succs gt v)) (k_modified s sys))).
+       c_mbc L s' = tab n (fun u => getb (if negb (k_local s sys) && sys then repeat false n else c_nmbc L s) u
+                                    || existsb (fun v => memb u (succs gt v)) (k_modified s sys))) /\
+    c_last L s' =
+      (if sys
+       then (c_last L s + sumZ (map (fun v => size (get L dflt (a_curr L a') v)
+                                              - size (get L dflt (a_curr L (c_arr L s)) v)) (k_modified s sys)))%Z
+       else sumZ (map (fun v => size (merged L join dflt g (a_curr L (c_arr L s)) (a_mod L (c_arr L s)) v))
+                      (filter (fun v => k_scan s sys v && k_chk s sys v) (seq 0 n)))) /\
+    c_nf L s' = Z.max (c_last L s') (hd 0%Z (c_nf L s)) :: c_nf L s.
   Proof.
     cbv zeta. repeat split.
     intros -> ->. reflexivity.
@@ -702,31 +754,34 @@ Section Concrete.
   Lemma k_skip_ok s c sys :
     wf_graph g (length c) -> cinv s c ->
     (sys = true \/ c_prelocal L s = true -> is_transpose g gt) ->
-    skip_ok ext g (a_mod L (c_arr L s)) (k_scan s) (k_chk s sys).
+    skip_ok ext g (a_mod L (c_arr L s)) (k_scan s sys) (k_chk s sys).
   Proof.
     intros [Hlen Hwf] [Hainv [Ha [Hb _]]] Htr.
-    unfold k_scan, k_chk. destruct (c_prelocal L s) eqn:Epl.
-    - (* local *)
-      assert (Hloc := local_legal ext g gt (a_mod L (c_arr L s)) (k_check s) (Htr (or_intror eq_refl))).
+    unfold k_scan, k_chk. destruct (k_local s sys) eqn:Eloc.
+    - (* local (hence systolic) *)
+      pose proof Eloc as Eloc'. unfold k_local in Eloc'. apply andb_prop in Eloc'. destruct Eloc' as [Epl Es].
+      assert (Hloc := local_legal ext g gt (a_mod L (c_arr L s)) (k_check s sys) (Htr (or_intror Epl))).
       assert (Hin : forall v, getb (a_mod L (c_arr L s)) v = true ->
-                     In v (k_check s) /\ (forall u, In u (succs gt v) -> In u (k_check s))).
-      { intros v Hv. unfold k_check. rewrite Epl. destruct (Ha eq_refl v Hv) as [H1 H2].
+                     In v (k_check s sys) /\ (forall u, In u (succs gt v) -> In u (k_check s sys))).
+      { intros v Hv. unfold k_check. rewrite Eloc. destruct (Ha Epl v Hv) as [H1 H2].
         split; [apply sort_dedup_In; exact H1 | intros u Hu; apply sort_dedup_In; apply H2; exact Hu]. }
       specialize (Hloc Hin). destruct Hloc as [H1 H2]. split.
       + intros v Hv. apply H1. rewrite orb_true_r in Hv. rewrite andb_true_r in *. exact Hv.
       + exact H2.
     - destruct sys eqn:Es.
-      + (* systolic, not local *)
-        cbn [negb orb]. unfold k_mbc0. rewrite Epl. cbn [negb andb].
+      + (* systolic, not local: the last iteration was not pre-local *)
+        assert (Epl : c_prelocal L s = false) by (unfold k_local in Eloc; rewrite andb_true_r in Eloc; exact Eloc).
+        cbn [negb orb]. unfold k_mbc0. rewrite Eloc. cbn [negb andb].
         destruct (c_sys L s) eqn:Eps; cbn [negb].
         * apply (systolic_legal ext g gt _ _ (Htr (or_introl eq_refl))).
-          intros v u Hv Hu. apply (Hb eq_refl eq_refl v u Hv Hu).
+          intros v u Hv Hu. apply (Hb eq_refl Epl v u Hv Hu).
         * split; [|intros _ v Hv; discriminate].
           intros v Hv. cbn [andb] in Hv. rewrite getb_repeat in Hv.
           destruct (Nat.ltb v _) eqn:Ev; [discriminate|]. apply Nat.ltb_ge in Ev.
           destruct Hainv as [Hc _]. rewrite Hc in Ev.
           unfold anylive, succs. rewrite nth_overflow by lia. reflexivity.
-      + split; [intros v Hv; discriminate | intros _ v Hv; discriminate].
+      + (* standard: every node is scanned and checked *)
+        split; [intros v Hv; discriminate | intros _ v Hv; discriminate].
   Qed.
 
   Lemma cstep_inv s c sys pl :
@@ -737,20 +792,20 @@ Section Concrete.
     intros Hwf Hinv Hpl Htr.
     pose proof (k_skip_ok s c sys Hwf Hinv Htr) as Hsk.
     pose proof (k_nmod0_false s c Hinv) as Hnm.
-    destruct (cstep_fields s sys pl) as [Farr [Fnmod [Fsys [Floc [Fpl [Fchk [Fbuf [_ Fmbc]]]]]]]].
+    destruct (cstep_fields s sys pl) as [Farr [Fnmod [Fsys [Floc [Fpl [Fchk [Fbuf [_ [Fmbc _]]]]]]]]].
     destruct Hinv as [Hainv [Ha [Hb Hc]]].
-    destruct (skip_sound_lemma L join eqb dflt SL EQ ext g (c_arr L s) c (k_scan s) (k_chk s sys) Hwf Hainv Hsk)
+    destruct (skip_sound_lemma L join eqb dflt SL EQ ext g (c_arr L s) c (k_scan s sys) (k_chk s sys) Hwf Hainv Hsk)
       as [Hainv' Hmod'].
     assert (Hcn : length (a_curr L (c_arr L s)) = length c) by (destruct Hainv as [-> _]; reflexivity).
     assert (Hmd : tab (length (a_curr L (c_arr L s)))
-                    (fun v => getb (k_nmod0 s) v || node_mod L join eqb dflt g (c_arr L s) (k_scan s) (k_chk s sys) v)
-                  = a_mod L (astep L join eqb dflt ext g (c_arr L s) (k_scan s) (k_chk s sys))).
+                    (fun v => getb (k_nmod0 s) v || node_mod L join eqb dflt g (c_arr L s) (k_scan s sys) (k_chk s sys) v)
+                  = a_mod L (astep L join eqb dflt ext g (c_arr L s) (k_scan s sys) (k_chk s sys))).
     { cbn [astep a_mod]. apply tab_ext. intros v _. rewrite Hnm. reflexivity. }
     rewrite Hmd in Farr.
     assert (Farr' : c_arr L (cstep L join eqb dflt size ext g gt s sys pl)
-                    = astep L join eqb dflt ext g (c_arr L s) (k_scan s) (k_chk s sys)).
+                    = astep L join eqb dflt ext g (c_arr L s) (k_scan s sys) (k_chk s sys)).
     { rewrite Farr. reflexivity. }
-    assert (Hmodin : forall v, getb (a_mod L (astep L join eqb dflt ext g (c_arr L s) (k_scan s) (k_chk s sys))) v = true ->
+    assert (Hmodin : forall v, getb (a_mod L (astep L join eqb dflt ext g (c_arr L s) (k_scan s sys) (k_chk s sys))) v = true ->
                       In v (k_modified s sys)).
     { intros v Hv. cbn [astep a_mod] in Hv. rewrite getb_tab in Hv.
       destruct (Nat.ltb v _) eqn:Ev; [|discriminate]. apply Nat.ltb_lt in Ev.
@@ -766,7 +821,42 @@ Section Concrete.
         destruct (Htr (or_introl eq_refl)) as [_ Ht]. apply (proj1 (Ht u v)) in Hu. apply (succs_nonempty_lt g u v Hu). }
       apply Nat.ltb_lt in Hun. rewrite Hun. apply orb_true_iff. right.
       apply existsb_exists. exists v. split; [apply Hmodin; exact Hv | apply memb_In; exact Hu].
-    - intros Hl v Hv. unfold k_check. rewrite Hl. apply sort_dedup_In. apply (proj1 (Ha Hl v Hv)).
+    - intros Hl v Hv. unfold k_check. rewrite Hl. apply sort_dedup_In.
+      unfold k_local in Hl. apply andb_prop in Hl. apply (proj1 (Ha (proj1 Hl) v Hv)).
+  Qed.
+
+  (** the value of the neighbourhood function computed by an iteration ([self.last]): a
+      standard iteration scans every node; a systolic one (local or not) compensates the
+      previous value with the differences of the modified counters, and a counter that is
+      not flagged modified did not change *)
+  Lemma cstep_last s c sys pl :
+    wf_graph g (length c) -> cinv s c ->
+    (sys = true \/ c_prelocal L s = true -> is_transpose g gt) ->
+    (sys = true -> c_last L s = sumZ (map size c)) ->
+    c_last L (cstep L join eqb dflt size ext g gt s sys pl) = sumZ (map size (sstep g c)).
+  Proof.
+    intros Hwf Hinv Htr Hlast.
+    pose proof (k_skip_ok s c sys Hwf Hinv Htr) as Hsk.
+    destruct (cstep_fields s sys pl) as [_ [_ [_ [_ [_ [_ [_ [_ [_ [Flast _]]]]]]]]]].
+    destruct Hinv as [Hainv _].
+    pose proof (step_nodes L join eqb dflt SL EQ ext g (c_arr L s) c (k_scan s sys) (k_chk s sys) Hainv Hsk) as Hn.
+    destruct (skip_sound_lemma L join eqb dflt SL EQ ext g (c_arr L s) c (k_scan s sys) (k_chk s sys) Hwf Hainv Hsk)
+      as [[Hc' _] _].
+    destruct Hainv as [Hc [_ [_ Habs]]].
+    rewrite Flast. clear Flast. destruct sys.
+    - rewrite (Hlast eq_refl). rewrite Hc'. unfold k_modified. rewrite Hc.
+      rewrite sumZ_filter0.
+      + rewrite (sumZ_sub (fun v => size (get L dflt (sstep g c) v)) (fun v => size (get L dflt c v))).
+        rewrite (map_as_tab size c dflt). rewrite (map_as_tab size (sstep g c) dflt).
+        rewrite (sstep_length L join dflt g c). unfold HBallM.get. lia.
+      + intros v Hv Hm. apply in_seq in Hv. assert (Hvl : v < length c) by lia.
+        rewrite (proj2 (Hn v Hvl)) in Hm. apply negb_false_iff in Hm. apply EQ in Hm.
+        rewrite (sstep_get L join dflt g c v Hvl). rewrite Hm. lia.
+    - rewrite filter_all.
+      + rewrite Hc. unfold sync_step, tab. rewrite map_map. f_equal. apply map_ext_in.
+        intros v Hv. apply in_seq in Hv. f_equal. apply (merged_eq_snode L join dflt SL).
+        intros w Hw Hmw. apply (Habs v w); [lia | exact Hw | exact Hmw].
+      + intros v _. unfold k_scan, k_chk, k_local. rewrite andb_false_r. reflexivity.
   Qed.
 
   Variable has_tr : bool.
@@ -774,37 +864,57 @@ Section Concrete.
   Variable c0 : list L.
   Hypothesis Hwf : wf_graph g (length c0).
 
+  Notation nf := (nf_at join dflt size g c0).
+
   Definition rinv (s : cstate L) : Prop :=
-    cinv s (sync_iter L join dflt g (c_iter L s) c0) /\ (c_prelocal L s = true -> has_tr = true).
+    cinv s (sync_iter L join dflt g (c_iter L s) c0) /\ (c_prelocal L s = true -> has_tr = true) /\
+    (c_iter L s <> 0 -> c_last L s = nf (c_iter L s)) /\
+    ((forall a b, join a b = b -> (size a <= size b)%Z) -> sumZ (map size c0) = Z.of_nat (length c0) ->
+     rev (c_nf L s) = map nf (seq 0 (S (c_iter L s)))).
 
   Lemma decide_props n m it cnt sys pl :
-    decide has_tr n m it cnt = (sys, pl) -> (pl = true -> sys = true) /\ (sys = true -> has_tr = true).
+    decide has_tr n m it cnt = (sys, pl) ->
+    (pl = true -> sys = true) /\ (sys = true -> has_tr = true) /\ (sys = true -> it <> 0).
   Proof.
-    unfold decide. intros H. injection H as Hs Hp. subst sys pl. split.
+    unfold decide. intros H. injection H as Hs Hp. subst sys pl. split; [|split].
     - intros H. apply andb_prop in H. apply H.
     - intros H. destruct has_tr; [reflexivity | discriminate H].
+    - intros H Hit. subst it. destruct has_tr; discriminate H.
   Qed.
 
   Lemma rinv_step s sys pl :
     rinv s -> decide has_tr (length (a_curr L (c_arr L s))) (num_arcs g) (c_iter L s) (c_count L s) = (sys, pl) ->
     rinv (cstep L join eqb dflt size ext g gt s sys pl).
   Proof.
-    intros [Hc Hp] Hd. destruct (decide_props _ _ _ _ _ _ Hd) as [Hpl Hsys].
-    destruct (cstep_fields s sys pl) as [_ [_ [_ [_ [Fpl [_ [_ [Fit _]]]]]]]].
-    unfold rinv. rewrite Fit, Fpl. cbn [sync_iter]. split.
-    - apply cstep_inv.
-      + rewrite (siter_length L join dflt). exact Hwf.
-      + exact Hc.
-      + exact Hpl.
-      + intros [H|H]; apply Htr; [apply Hsys; exact H | apply Hp; exact H].
+    intros [Hc [Hp [Hl Hh]]] Hd. destruct (decide_props _ _ _ _ _ _ Hd) as [Hpl [Hsys Hit]].
+    destruct (cstep_fields s sys pl) as [_ [_ [_ [_ [Fpl [_ [_ [Fit [_ [_ Fnf]]]]]]]]]].
+    assert (Hwf' : wf_graph g (length (sync_iter L join dflt g (c_iter L s) c0)))
+      by (rewrite (siter_length L join dflt); exact Hwf).
+    assert (Htr' : sys = true \/ c_prelocal L s = true -> is_transpose g gt)
+      by (intros [H|H]; apply Htr; [apply Hsys; exact H | apply Hp; exact H]).
+    assert (Hlast' : c_last L (cstep L join eqb dflt size ext g gt s sys pl) = nf (S (c_iter L s))).
+    { unfold nf_at. cbn [sync_iter]. apply cstep_last; [exact Hwf' | exact Hc | exact Htr' |].
+      intros Hs. apply Hl. apply Hit. exact Hs. }
+    unfold rinv. rewrite Fit, Fpl. split; [|split; [|split]].
+    - cbn [sync_iter]. apply cstep_inv; [exact Hwf' | exact Hc | exact Hpl | exact Htr'].
     - intros H. apply Hsys. apply Hpl. exact H.
+    - intros _. exact Hlast'.
+    - intros Hmono Hinit. specialize (Hh Hmono Hinit).
+      rewrite Fnf. rewrite Hlast'. cbn [rev]. rewrite Hh.
+      assert (Hhd : hd 0%Z (c_nf L s) = nf (c_iter L s)).
+      { rewrite <- (rev_involutive (c_nf L s)). rewrite Hh. rewrite seq_S, map_app, rev_app_distr. reflexivity. }
+      rewrite Hhd.
+      assert (Hle : (nf (c_iter L s) <= nf (S (c_iter L s)))%Z)
+        by (apply (proj2 (nf_monotone L join dflt size g c0 (c_iter L s) SL Hmono))).
+      rewrite Z.max_l by exact Hle.
+      rewrite (seq_S (S (c_iter L s)) 0). rewrite map_app. reflexivity.
   Qed.
 
   Lemma crun_inv fuel : forall s, rinv s ->
     forall s', In s' (crun L join eqb dflt size ext has_tr g gt fuel s) -> rinv s'.
   Proof.
-    induction fuel as [|f IH]; intros s Hs s' Hin; [destruct Hin|].
-    cbn [crun] in Hin.
+    unfold crun. induction fuel as [|f IH]; intros s Hs s' Hin; [destruct Hin|].
+    cbn [crun_gen] in Hin.
     destruct (decide has_tr (length (a_curr L (c_arr L s))) (num_arcs g) (c_iter L s) (c_count L s)) as [sys pl] eqn:Hd.
     pose proof (rinv_step s sys pl Hs Hd) as Hs1.
     destruct Hin as [<-|Hin]; [exact Hs1|].
@@ -813,20 +923,100 @@ Section Concrete.
 
   Lemma init_rinv : rinv (init_state L dflt c0).
   Proof.
-    split; [|intros H; discriminate]. cbn [init_state c_iter sync_iter]. split; [|split; [|split]].
-    - apply (init_ainv L join dflt ext g c0 Hwf).
-    - intros H; discriminate.
-    - intros H; discriminate.
-    - intros H; discriminate.
+    split; [|split; [intros H; discriminate | split]].
+    - cbn [init_state c_iter sync_iter]. split; [|split; [|split]].
+      + apply (init_ainv L join dflt ext g c0 Hwf).
+      + intros H; discriminate.
+      + intros H; discriminate.
+      + intros H; discriminate.
+    - intros H. exfalso. apply H. reflexivity.
+    - intros _ Hinit. cbn [init_state c_nf c_iter rev app seq map]. unfold nf_at. cbn [sync_iter].
+      rewrite Hinit. reflexivity.
+  Qed.
+
+  (** the repaired code: local only when systolic *)
+  Lemma crun_local_sys fuel : forall s s',
+    In s' (crun L join eqb dflt size ext has_tr g gt fuel s) -> c_local L s' = true -> c_sys L s' = true.
+  Proof.
+    unfold crun. induction fuel as [|f IH]; intros s s' Hin; [destruct Hin|].
+    cbn [crun_gen] in Hin.
+    destruct (decide has_tr (length (a_curr L (c_arr L s))) (num_arcs g) (c_iter L s) (c_count L s)) as [sys pl].
+    destruct Hin as [<-|Hin].
+    - destruct (cstep_fields s sys pl) as [_ [_ [Fsys [Floc _]]]].
+      fold (cstep L join eqb dflt size ext g gt s sys pl). rewrite Fsys, Floc.
+      unfold k_local. intros H. apply andb_prop in H. apply H.
+    - destruct (Nat.eqb _ 0); [destruct Hin|]. apply (IH _ s' Hin).
   Qed.
 End Concrete.
 
 Theorem concrete_full : S_concrete_full.
 Proof.
   intros L join eqb dflt size ext has_tr g gt ub c0 SL EQ Hwf Htr. cbv zeta. intros s Hin.
-  unfold hb_run in Hin.
+  unfold hb_run, hb_run_gen in Hin.
   pose proof (crun_inv L join eqb dflt size SL EQ ext g gt has_tr Htr c0 Hwf _ _
-                (init_rinv L join dflt ext g gt has_tr c0 Hwf) s Hin) as [[[Hc _] _] _].
+                (init_rinv L join dflt size ext g gt has_tr c0 Hwf) s Hin) as [[[Hc _] _] _].
   exact Hc.
 Qed.
 
+Theorem nf_exact : S_nf_exact.
+Proof.
+  intros L join eqb dflt size ext has_tr g gt ub c0 SL EQ Hwf Htr. cbv zeta. intros s Hin.
+  unfold hb_run, hb_run_gen in Hin.
+  assert (Hit : c_iter L s <> 0).
+  { clear -Hin. revert Hin. generalize (init_state L dflt c0). generalize (Nat.min ub (length c0)).
+    induction n as [|f IH]; intros s0 Hin; [destruct Hin|].
+    cbn [crun_gen] in Hin. destruct (decide _ _ _ _ _) as [sys pl].
+    destruct Hin as [<-|Hin]; [cbn; discriminate|].
+    destruct (Nat.eqb _ 0); [destruct Hin|]. apply (IH _ Hin). }
+  pose proof (crun_inv L join eqb dflt size SL EQ ext g gt has_tr Htr c0 Hwf _ _
+                (init_rinv L join dflt size ext g gt has_tr c0 Hwf) s Hin) as [[[Hc _] _] [_ [Hl Hh]]].
+  split; [apply Hl; exact Hit|]. split; [|exact Hh].
+  rewrite Hc. apply Hl. exact Hit.
+Qed.
+
+Theorem local_systolic : S_local_systolic.
+Proof.
+  intros L join eqb dflt size ext has_tr g gt ub c0 s Hin.
+  apply (crun_local_sys L join eqb dflt size ext g gt has_tr _ _ s Hin).
+Qed.
+
+(** ** The exact instance of the neighbourhood function *)
+Lemma bits_eqb_spec : eqb_spec bits_eqb.
+Proof.
+  intros a. induction a as [|x a IH]; intros b; destruct b as [|y b]; cbn [bits_eqb];
+    try (split; [discriminate | discriminate]); [split; reflexivity|].
+  rewrite andb_true_iff, IH, Bool.eqb_true_iff. split.
+  - intros [-> ->]. reflexivity.
+  - intros H. injection H as -> ->. split; reflexivity.
+Qed.
+
+Lemma count_eqb_seq v k : forall a,
+  count_true (map (Nat.eqb v) (seq a k)) = if Nat.leb a v && Nat.ltb v (a + k) then 1 else 0.
+Proof.
+  unfold count_true. induction k as [|k IH]; intros a.
+  - cbn [seq map filter length]. destruct (Nat.leb a v && Nat.ltb v (a + 0)) eqn:E; [lia | reflexivity].
+  - cbn [seq map filter]. specialize (IH (S a)).
+    destruct (Nat.eqb v a) eqn:E1; cbn [length]; rewrite IH;
+      destruct (Nat.leb (S a) v && Nat.ltb v (S a + k)) eqn:E2;
+      destruct (Nat.leb a v && Nat.ltb v (a + S k)) eqn:E3; lia.
+Qed.
+
+Lemma singletons_size n : sumZ (map bits_size (singletons n)) = Z.of_nat (length (singletons n)).
+Proof.
+  apply sumZ_ones. intros x Hx. unfold singletons, tab in Hx. apply in_map_iff in Hx.
+  destruct Hx as [v [<- Hv]]. apply in_seq in Hv. unfold bits_size, singleton, tab.
+  rewrite count_eqb_seq.
+  destruct (Nat.leb 0 v && Nat.ltb v (0 + n)) eqn:E; lia.
+Qed.
+
+Theorem nf_exact_bits : S_nf_exact_bits.
+Proof.
+  intros ext has_tr g gt n ub Hwf Htr. cbv zeta. intros s Hin.
+  assert (Hlen : length (singletons n) = n) by apply tab_length.
+  assert (Hwf' : wf_graph g (length (singletons n))) by (rewrite Hlen; exact Hwf).
+  destruct (nf_exact (list bool) bits_join bits_eqb [] bits_size ext has_tr g gt ub (singletons n)
+              bits_semilattice bits_eqb_spec Hwf' Htr s Hin) as [H1 [_ H3]].
+  specialize (H3 bits_size_mono (singletons_size n)).
+  split; [exact H1|]. split; [|exact H3].
+  rewrite <- (rev_involutive (c_nf _ s)). rewrite H3. rewrite seq_S, map_app, rev_app_distr. reflexivity.
+Qed.
